@@ -313,6 +313,745 @@ DSA2048_G = int(
     , 16)
 DSA2048_X = int("2d42e0f67ce7496a44a2ea350e4993ce9e2b0342143ad983be673f2c3de77fc1", 16)
 
+def test_a_protocol():
+    eq("ping", W.call(op="ping"), {"ok": True})
+    eq("id is copied (number)", W.call(op="ping", id=42), {"ok": True, "id": 42})
+    eq("id is copied (string) on error", W.call(op="no-such-op", id="x7").get("id"), "x7")
+    for name, line in [("garbage line", b"this is not json"), ("empty line", b""), ("json array", b"[1,2]"),
+                       ("json scalar", b"17"), ("truncated json", b'{"op":"hash"'), ("deep nesting", b"[" * 100000),
+                       ("invalid utf-8", b'{"op":"\xff\xfe"}'), ("op not a string", b'{"op":5}'), ("no op", b"{}")]:
+        r = W.raw(line)
+        report("bad input -> error: " + name, list(r.keys()) == ["error"], repr(r))
+    bad = [
+        ("unknown op", dict(op="frobnicate")),
+        ("missing field", dict(op="hash", alg="SHA-256")),
+        ("bad hex", dict(op="hash", alg="SHA-256", data="zz")),
+        ("odd hex", dict(op="hash", alg="SHA-256", data="abc")),
+        ("non-string data", dict(op="hash", alg="SHA-256", data=5)),
+        ("unknown hash", dict(op="hash", alg="SHA-3", data="")),
+        ("unknown mac", dict(op="mac", alg="HMAC(FOO)", key="00", data="")),
+        ("bad AES key length", dict(op="cipher", alg="AES", mode="ECB", dir="enc", key="00" * 15, data="00" * 16)),
+        ("ECB partial block", dict(op="cipher", alg="AES", mode="ECB", dir="enc", key="00" * 16, data="00" * 15)),
+        ("CBC partial block", dict(op="cipher", alg="AES", mode="CBC", dir="enc", key="00" * 16, iv="00" * 16, data="00" * 17)),
+        ("CBC bad iv", dict(op="cipher", alg="AES", mode="CBC", dir="enc", key="00" * 16, iv="00" * 8, data="00" * 16)),
+        ("unknown mode", dict(op="cipher", alg="AES", mode="XTS", dir="enc", key="00" * 16, data="")),
+        ("bad dir", dict(op="cipher", alg="AES", mode="ECB", dir="sideways", key="00" * 16, data="")),
+        ("ctrbits 0", dict(op="cipher", alg="AES", mode="CTR", dir="enc", key="00" * 16, iv="00" * 16, ctrbits=0, data="00")),
+        ("ctrbits 129", dict(op="cipher", alg="AES", mode="CTR", dir="enc", key="00" * 16, iv="00" * 16, ctrbits=129, data="00")),
+        ("ctrbits negative", dict(op="cipher", alg="AES", mode="CTR", dir="enc", key="00" * 16, iv="00" * 16, ctrbits=-1, data="00")),
+        ("GCM empty iv", dict(op="cipher", alg="AES", mode="GCM", dir="enc", key="00" * 16, iv="", aad="", tagbytes=16, data="")),
+        ("GCM tagbytes 0", dict(op="cipher", alg="AES", mode="GCM", dir="enc", key="00" * 16, iv="00", aad="", tagbytes=0, data="")),
+        ("GCM tagbytes 17", dict(op="cipher", alg="AES", mode="GCM", dir="enc", key="00" * 16, iv="00", aad="", tagbytes=17, data="")),
+        ("GCM dec shorter than tag", dict(op="cipher", alg="AES", mode="GCM", dir="dec", key="00" * 16, iv="00", aad="", tagbytes=16, data="00" * 15)),
+        ("GCM with DES", dict(op="cipher", alg="DES", mode="GCM", dir="enc", key="00" * 8, iv="00", data="")),
+        ("keywrap bad kek", dict(op="keywrap", mode="rfc3394", dir="wrap", kek="00" * 17, data="00" * 16)),
+        ("keywrap 3394 short", dict(op="keywrap", mode="rfc3394", dir="wrap", kek="00" * 16, data="00" * 8)),
+        ("keywrap 3394 odd", dict(op="keywrap", mode="rfc3394", dir="wrap", kek="00" * 16, data="00" * 17)),
+        ("keywrap 5649 empty", dict(op="keywrap", mode="rfc5649", dir="wrap", kek="00" * 16, data="")),
+        ("keywrap unwrap odd", dict(op="keywrap", mode="rfc5649", dir="unwrap", kek="00" * 16, data="00" * 17)),
+        ("kcv bad alg", dict(op="kcv", alg="RC4", key="00" * 16)),
+        ("rsa missing key", dict(op="rsa_sign", pad="pkcs1", hash="SHA-256", msg="00")),
+        ("rsa zero modulus", dict(op="rsa_verify", n="00", e="03", pad="pkcs1", hash="SHA-256", msg="00", sig="00")),
+        ("rsa p*q != n", dict(op="rsa_sign", n="0f", e="03", d="03", p="03", q="07", pad="raw", msg="01")),
+        ("huge integer", dict(op="dh", p="ff" * 5000, g="02", x="03", peer="04")),
+        ("dsa x = 0", dict(op="dsa_sign", p=hx(DSA1024_P), q=hx(DSA1024_Q), g=hx(DSA1024_G), x="00", hash="SHA-1", msg="")),
+        ("dsa even p", dict(op="dsa_sign", p="10", q="03", g="02", x="01", hash="SHA-1", msg="")),
+        ("ecdsa d = 0", dict(op="ecdsa_sign", curve="secp256r1", d="00", hash="SHA-256", msg="")),
+        ("ecdsa d = n", dict(op="ecdsa_sign", curve="secp256r1", hash="SHA-256", msg="",
+                             d="ffffffff00000000ffffffffffffffffbce6faada7179e84f3b9cac2fc632551")),
+        ("unknown curve", dict(op="ec_pub", curve="secp192r1", d="01")),
+        ("ecdh point not on curve", dict(op="ecdh", curve="secp256r1", d="01", peer="04" + "00" * 63 + "01")),
+        ("ecdh short point", dict(op="ecdh", curve="secp256r1", d="01", peer="04" + "00" * 10)),
+        ("eddsa bad seed length", dict(op="eddsa_sign", curve="Ed25519", d="00" * 31, msg="")),
+        ("eddsa448 bad seed length", dict(op="eddsa_pub", curve="Ed448", d="00" * 32)),
+        ("eddsa bad pub length", dict(op="eddsa_verify", curve="Ed448", pub="00" * 32, msg="", sig="00" * 114)),
+        ("xdh bad scalar length", dict(op="xdh", curve="X448", d="00" * 32, peer="00" * 56)),
+        ("xdh bad peer length", dict(op="xdh", curve="X25519", d="00" * 32, peer="00" * 31)),
+        ("dh zero modulus", dict(op="dh", p="00", g="02", x="03", peer="04")),
+        ("pkcs8_parse garbage", dict(op="pkcs8_parse", der="3003020100")),
+        ("pkcs8_parse truncated", dict(op="pkcs8_parse", der="302e020100300506032b6570042204")),
+        ("pkcs8_parse empty", dict(op="pkcs8_parse", der="")),
+        ("pkcs8_parse length bomb", dict(op="pkcs8_parse", der="3084ffffffff")),
+        ("pkcs8_make unknown type", dict(op="pkcs8_make", type="GOST", d="00")),
+    ]
+    for name, req in bad:
+        r = W.call(**req)
+        report("bad request -> error: " + name, list(r.keys()) == ["error"], repr(r))
+    eq("still alive after bad input", W.call(op="ping"), {"ok": True})
+
+
+def test_b_hash():
+    for alg, want in [
+        ("MD5", "900150983cd24fb0d6963f7d28e17f72"),
+        ("SHA-1", "a9993e364706816aba3e25717850c26c9cd0d89d"),
+        ("SHA-224", "23097d223405d8228642a477bda255b32aadbce4bda0b3f7e36c9da7"),
+        ("SHA-256", "ba7816bf8f01cfea414140de5dae2223b00361a396177a9cb410ff61f20015ad"),
+        ("SHA-384", "cb00753f45a35e8bb5a03d699ac65007272c32ab0eded1631a8b605a43ff5bed8086072ba1e7cc2358baeca134c825a7"),
+        ("SHA-512", "ddaf35a193617abacc417349ae20413112e6fa4e89a97ea20a9eeee64b55d39a"
+                    "2192992a274fc1a836ba3c23a3feebbd454d4423643ce80e2a9ac94fa54ca49f"),
+    ]:
+        eq("hash %s FIPS 180 'abc'" % alg, W.out(op="hash", alg=alg, data=b"abc".hex()), want)
+        eq("hash %s empty input" % alg, W.out(op="hash", alg=alg, data=""), pyhash(alg, b"").hex())
+
+
+def test_c_mac():
+    hi = b"Hi There".hex()
+    for alg, key, data, want in [
+        ("HMAC(MD5)", "0b" * 16, hi, "9294727a3638bb1c13f48ef8158bfc9d"),                        # RFC 2202
+        ("HMAC(SHA-1)", "0b" * 20, hi, "b617318655057264e28bc0b6fb378c8ef146be00"),              # RFC 2202
+        ("HMAC(SHA-224)", "0b" * 20, hi, "896fb1128abbdf196832107cd49df33f47b4b1169912ba4f53684b22"),  # RFC 4231 #1
+        ("HMAC(SHA-256)", "0b" * 20, hi, "b0344c61d8db38535ca8afceaf0bf12b881dc200c9833da726e9376c2e32cff7"),
+        ("HMAC(SHA-384)", "0b" * 20, hi, "afd03944d84895626b0825f4ab46907f15f9dadbe4101ec682aa034c7cebc59c"
+                                         "faea9ea9076ede7f4af152e8b2fa9cb6"),
+        ("HMAC(SHA-512)", "0b" * 20, hi, "87aa7cdea5ef619d4ff0b4241a1d6cb02379f4e2ce4ec2787ad0b30545e17cde"
+                                         "daa833b7d6b8a702038b274eaea3f4e4be9d914eeb61f1702e696c203a126854"),
+        ("HMAC(SHA-256)", b"Jefe".hex(), b"what do ya want for nothing?".hex(),                  # RFC 4231 #2
+         "5bdcc146bf60754e6a042426089575c75a003f089d2739839dec58b964ec3843"),
+        ("HMAC(SHA-256)", "aa" * 131, b"Test Using Larger Than Block-Size Key - Hash Key First".hex(),  # RFC 4231 #6
+         "60e431591ee0b67f0d8a26aacbf5b77f8e0bc6213728c5140546040f0ee37f54"),
+    ]:
+        eq("mac %s key %d bytes RFC 2202/4231" % (alg, len(key) // 2), W.out(op="mac", alg=alg, key=key, data=data), want)
+    import hmac
+    for alg in PYHASH:
+        for klen in (0, 1, 64, 65, 128, 129, 5000):
+            key = bytes(range(256)) * 20
+            key = key[:klen]
+            eq("mac HMAC(%s) key %d bytes vs python hmac" % (alg, klen),
+               W.out(op="mac", alg="HMAC(%s)" % alg, key=key.hex(), data=b"message".hex()),
+               hmac.new(key, b"message", PYHASH[alg]).hexdigest())
+    # RFC 4493 AES-128 CMAC; SP 800-38B AES-192/256 and TDES examples
+    m = ("6bc1bee22e409f96e93d7e117393172aae2d8a571e03ac9c9eb76fac45af8e51"
+         "30c81c46a35ce411e5fbc1191a0a52eff69f2445df4f9b17ad2b417be66c3710")
+    k128 = "2b7e151628aed2a6abf7158809cf4f3c"
+    k192 = "8e73b0f7da0e6452c810f32b809079e562f8ead2522c6b7b"
+    k256 = "603deb1015ca71be2b73aef0857d77811f352c073b6108d72d9810a30914dff4"
+    for key, n, want in [
+        (k128, 0, "bb1d6929e95937287fa37d129b756746"), (k128, 16, "070a16b46b4d4144f79bdd9dd04a287c"),
+        (k128, 40, "dfa66747de9ae63030ca32611497c827"), (k128, 64, "51f0bebf7e3b9d92fc49741779363cfe"),
+        (k192, 0, "d17ddf46adaacde531cac483de7a9367"), (k192, 16, "9e99a7bf31e710900662f65e617c5184"),
+        (k192, 40, "8a1de5be2eb31aad089a82e6ee908b0e"), (k192, 64, "a1d5df0eed790f794d77589659f39a11"),
+        (k256, 0, "028962f61b7bf89efc6b551f4667d983"), (k256, 16, "28a7023f452e8f82bd4bf28d8c37c35c"),
+        (k256, 40, "aaf3d8f1de5640c232f5b169b9c911e6"), (k256, 64, "e1992190549f6ed5696a2c056c315410"),
+    ]:
+        eq("mac CMAC(AES) %d-bit key, %d byte msg (RFC 4493 / SP 800-38B)" % (len(key) * 4, n),
+           W.out(op="mac", alg="CMAC(AES)", key=key, data=m[:2 * n]), want)
+    k3 = "8aa83bf8cbda10620bc1bf19fbb6cd58bc313d4a371ca8b5"
+    k2 = "4cf15134a2850dd58a3d10ba80570d38"
+    for key, n, want in [
+        (k3, 0, "b7a688e122ffaf95"), (k3, 8, "8e8f293136283797"), (k3, 20, "743ddbe0ce2dc2ed"), (k3, 32, "33e6b1092400eae5"),
+        (k2, 0, "bd2ebf9a3ba00361"), (k2, 8, "4ff2ab813c53ce83"), (k2, 20, "62dd1b471902bd4e"), (k2, 32, "31b1e431dabc4eb8"),
+    ]:
+        eq("mac CMAC(3DES) %d-byte key, %d byte msg (SP 800-38B)" % (len(key) // 2, n),
+           W.out(op="mac", alg="CMAC(3DES)", key=key, data=m[:2 * n]), want)
+    eq("mac CMAC(3DES) two-key == k1|k2|k1", W.out(op="mac", alg="CMAC(3DES)", key=k2, data=m),
+       W.out(op="mac", alg="CMAC(3DES)", key=k2 + k2[:16], data=m))
+
+
+def test_d_cipher():
+    pt = "00112233445566778899aabbccddeeff"
+    for key, want in [
+        ("000102030405060708090a0b0c0d0e0f", "69c4e0d86a7b0430d8cdb78070b4c55a"),
+        ("000102030405060708090a0b0c0d0e0f1011121314151617", "dda97ca4864cdfe06eaf70a0ec0d7191"),
+        ("000102030405060708090a0b0c0d0e0f101112131415161718191a1b1c1d1e1f", "8ea2b7ca516745bfeafc49904b496089"),
+    ]:
+        eq("cipher AES-%d ECB enc FIPS-197" % (len(key) * 4), W.out(op="cipher", alg="AES", mode="ECB", dir="enc", key=key, data=pt), want)
+        eq("cipher AES-%d ECB dec FIPS-197" % (len(key) * 4), W.out(op="cipher", alg="AES", mode="ECB", dir="dec", key=key, data=want), pt)
+    eq("cipher ECB empty input", W.out(op="cipher", alg="AES", mode="ECB", dir="enc", key="00" * 16, data=""), "")
+    # SP 800-38A F.2.1 / F.2.2 (CBC-AES128), F.5.1 (CTR-AES128)
+    k = "2b7e151628aed2a6abf7158809cf4f3c"
+    p4 = ("6bc1bee22e409f96e93d7e117393172aae2d8a571e03ac9c9eb76fac45af8e51"
+          "30c81c46a35ce411e5fbc1191a0a52eff69f2445df4f9b17ad2b417be66c3710")
+    c4 = ("7649abac8119b246cee98e9b12e9197d5086cb9b507219ee95db113a917678b2"
+          "73bed6b8e3c1743b7116e69e222295163ff1caa1681fac09120eca307586e1a7")
+    iv = "000102030405060708090a0b0c0d0e0f"
+    eq("cipher AES CBC enc SP 800-38A F.2.1", W.out(op="cipher", alg="AES", mode="CBC", dir="enc", key=k, iv=iv, data=p4), c4)
+    eq("cipher AES CBC dec SP 800-38A F.2.2", W.out(op="cipher", alg="AES", mode="CBC", dir="dec", key=k, iv=iv, data=c4), p4)
+    ctr = "f0f1f2f3f4f5f6f7f8f9fafbfcfdfeff"
+    cc = ("874d6191b620e3261bef6864990db6ce9806f66b7970fdff8617187bb9fffdff"
+          "5ae4df3edbd5d35e5b4f09020db03eab1e031dda2fbe03d1792170a0f3009cee")
+    eq("cipher AES CTR enc SP 800-38A F.5.1", W.out(op="cipher", alg="AES", mode="CTR", dir="enc", key=k, iv=ctr, ctrbits=128, data=p4), cc)
+    eq("cipher AES CTR dec SP 800-38A F.5.2", W.out(op="cipher", alg="AES", mode="CTR", dir="dec", key=k, iv=ctr, ctrbits=128, data=cc), p4)
+    eq("cipher AES CTR partial block", W.out(op="cipher", alg="AES", mode="CTR", dir="enc", key=k, iv=ctr, ctrbits=128, data=p4[:38]), cc[:38])
+    # CBC_PAD: PKCS#7, every residue
+    for n in (0, 1, 15, 16, 17, 31, 32):
+        data = bytes(range(n))
+        padded = data + bytes([16 - n % 16]) * (16 - n % 16)
+        want = py_cbc_enc("AES", H(k), H(iv), padded).hex()
+        got = W.out(op="cipher", alg="AES", mode="CBC_PAD", dir="enc", key=k, iv=iv, data=data.hex())
+        eq("cipher AES CBC_PAD enc %d bytes vs definition" % n, got, want)
+        eq("cipher AES CBC_PAD dec %d bytes" % n, W.out(op="cipher", alg="AES", mode="CBC_PAD", dir="dec", key=k, iv=iv, data=got), data.hex())
+    for name, blk in [("zero pad byte", "00" * 16), ("pad byte 17", "11" * 16), ("inconsistent", "00" * 13 + "020303")]:
+        bad = py_cbc_enc("AES", H(k), H(iv), H(blk)).hex()
+        r = W.call(op="cipher", alg="AES", mode="CBC_PAD", dir="dec", key=k, iv=iv, data=bad)
+        report("cipher CBC_PAD dec rejects bad padding: " + name, "error" in r, repr(r))
+    r = W.call(op="cipher", alg="AES", mode="CBC_PAD", dir="dec", key=k, iv=iv, data="")
+    report("cipher CBC_PAD dec rejects empty input", "error" in r, repr(r))
+    # DES / 3DES
+    eq("cipher DES ECB classic vector", W.out(op="cipher", alg="DES", mode="ECB", dir="enc", key="0123456789abcdef", data="4e6f772069732074"), "3fa40e8a984d4815")
+    eq("cipher DES ECB second vector", W.out(op="cipher", alg="DES", mode="ECB", dir="enc", key="133457799bbcdff1", data="0123456789abcdef"), "85e813540f0ab405")
+    eq("cipher DES ECB dec", W.out(op="cipher", alg="DES", mode="ECB", dir="dec", key="0123456789abcdef", data="3fa40e8a984d4815"), "4e6f772069732074")
+    k3 = "0123456789abcdef23456789abcdef01456789abcdef0123"
+    p3 = "5468652071756663" "6b2062726f776e20" "666f78206a756d70"
+    c3 = "a826fd8ce53b855f" "cce21c8112256fe6" "68d5c05dd9b6b900"
+    eq("cipher 3DES ECB enc SP 800-67", W.out(op="cipher", alg="3DES", mode="ECB", dir="enc", key=k3, data=p3), c3)
+    eq("cipher 3DES ECB dec SP 800-67", W.out(op="cipher", alg="3DES", mode="ECB", dir="dec", key=k3, data=c3), p3)
+    kd = "0123456789abcdef"
+    eq("cipher 3DES k|k|k == DES", W.out(op="cipher", alg="3DES", mode="ECB", dir="enc", key=kd * 3, data="4e6f772069732074"), "3fa40e8a984d4815")
+    k2 = k3[:32]
+    eq("cipher 3DES two-key == k1|k2|k1", W.out(op="cipher", alg="3DES", mode="ECB", dir="enc", key=k2, data=p3),
+       W.out(op="cipher", alg="3DES", mode="ECB", dir="enc", key=k2 + k2[:16], data=p3))
+    # 3DES two-key by composition of single DES: E_k1(D_k2(E_k1(x)))
+    x = ecb("DES", H(k2[:16]), H(p3[:16]))
+    x = ecb("DES", H(k2[16:]), x, "dec")
+    x = ecb("DES", H(k2[:16]), x)
+    eq("cipher 3DES two-key == E(k1) D(k2) E(k1)", W.out(op="cipher", alg="3DES", mode="ECB", dir="enc", key=k2, data=p3[:16]), x.hex())
+    iv8 = "1234567890abcdef"
+    for alg, key in (("DES", kd), ("3DES", k3), ("3DES", k2)):
+        want = py_cbc_enc(alg, H(key), H(iv8), H(p3)).hex()
+        eq("cipher %s(%d) CBC enc vs definition" % (alg, len(key) // 2), W.out(op="cipher", alg=alg, mode="CBC", dir="enc", key=key, iv=iv8, data=p3), want)
+        eq("cipher %s(%d) CBC dec" % (alg, len(key) // 2), W.out(op="cipher", alg=alg, mode="CBC", dir="dec", key=key, iv=iv8, data=want), p3)
+        got = W.out(op="cipher", alg=alg, mode="CBC_PAD", dir="enc", key=key, iv=iv8, data=p3[:20])
+        eq("cipher %s(%d) CBC_PAD enc vs definition" % (alg, len(key) // 2), got, py_cbc_enc(alg, H(key), H(iv8), H(p3[:20]) + b"\6" * 6).hex())
+        eq("cipher %s(%d) CBC_PAD dec" % (alg, len(key) // 2), W.out(op="cipher", alg=alg, mode="CBC_PAD", dir="dec", key=key, iv=iv8, data=got), p3[:20])
+
+
+def test_e_ctr_wrap():
+    key = H("2b7e151628aed2a6abf7158809cf4f3c")
+    data = bytes(range(80)) + b"xyz"
+    cases = [
+        (8, "000102030405060708090a0b0c0d0efe"), (8, "ffffffffffffffffffffffffffffffff"),
+        (32, "00112233445566778899aabbfffffffe"), (32, "ffffffffffffffffffffffffffffffff"),
+        (1, "000102030405060708090a0b0c0d0e0f"), (5, "000102030405060708090a0b0c0d0e1e"),
+        (12, "000102030405060708090a0b0c0d1ffe"), (64, "0001020304050607fffffffffffffffd"),
+        (127, "7ffffffffffffffffffffffffffffffe"), (127, "fffffffffffffffffffffffffffffffe"),
+        (128, "fffffffffffffffffffffffffffffffe"),
+    ]
+    for bits, iv in cases:
+        want = py_ctr("AES", key, H(iv), data, bits).hex()
+        got = W.out(op="cipher", alg="AES", mode="CTR", dir="enc", key=key.hex(), iv=iv, ctrbits=bits, data=data.hex())
+        eq("cipher AES CTR wrap ctrbits=%d iv=%s vs definition" % (bits, iv), got, want)
+        eq("cipher AES CTR dec ctrbits=%d iv=%s" % (bits, iv),
+           W.out(op="cipher", alg="AES", mode="CTR", dir="dec", key=key.hex(), iv=iv, ctrbits=bits, data=got), data.hex())
+    # explicit statement of the wrap for 8 and 32 bits: block 2 uses the counter with the low bits zeroed, high bits untouched
+    z = b"\0" * 48
+    got = H(W.out(op="cipher", alg="AES", mode="CTR", dir="enc", key=key.hex(), iv="a0" * 15 + "fe", ctrbits=8, data=z.hex()))
+    want = b"".join(ecb("AES", key, H("a0" * 15 + last)) for last in ("fe", "ff", "00"))
+    eq("cipher AES CTR ctrbits=8: ..fe, ..ff, ..00 without carry into byte 14", got.hex(), want.hex())
+    got = H(W.out(op="cipher", alg="AES", mode="CTR", dir="enc", key=key.hex(), iv="a0" * 12 + "fffffffe", ctrbits=32, data=z.hex()))
+    want = b"".join(ecb("AES", key, H("a0" * 12 + last)) for last in ("fffffffe", "ffffffff", "00000000"))
+    eq("cipher AES CTR ctrbits=32: wrap to 00000000 without carry into byte 11", got.hex(), want.hex())
+    k3 = H("0123456789abcdef23456789abcdef01456789abcdef0123")
+    want = py_ctr("3DES", k3, H("00000000000000ff"), data, 8).hex()
+    eq("cipher 3DES CTR ctrbits=8 vs definition", W.out(op="cipher", alg="3DES", mode="CTR", dir="enc", key=k3.hex(), iv="00000000000000ff", ctrbits=8, data=data.hex()), want)
+
+
+def gcm(dir, key, iv, aad, data, tagbytes=16):
+    return W.call(op="cipher", alg="AES", mode="GCM", dir=dir, key=key, iv=iv, aad=aad, tagbytes=tagbytes, data=data)
+
+
+def test_f_gcm():
+    k0, iv0 = "00" * 16, "00" * 12
+    k = "feffe9928665731c6d6a8f9467308308"
+    iv = "cafebabefacedbaddecaf888"
+    p = ("d9313225f88406e5a55909c5aff5269a86a7a9531534f7da2e4c303d8a318a72"
+         "1c3c0c95956809532fcf0e2449a6b525b16aedf5aa0de657ba637b391aafd255")
+    c = ("42831ec2217774244b7221b784d0d49ce3aa212f2c02a4e035c17e2329aca12e"
+         "21d514b25466931c7d8f6a5aac84aa051ba30b396a0aac973d58e091473f5985")
+    aad = "feedfacedeadbeeffeedfacedeadbeefabaddad2"
+    iv60 = ("9313225df88406e555909c5aff5269aa6a7a9538534f7da1e4c303d2a318a728"
+            "c3c0c95156809539fcf0e2429a6b525416aedbf5a0de6a57a637b39b")
+    vectors = [  # GCM specification (McGrew / Viega) test cases
+        (1, k0, iv0, "", "", "", "58e2fccefa7e3061367f1d57a4e7455a"),
+        (2, k0, iv0, "", "00" * 16, "0388dace60b6a392f328c2b971b2fe78", "ab6e47d42cec13bdf53a67b21257bddf"),
+        (3, k, iv, "", p, c, "4d5c2af327cd64a62cf35abd2ba6fab4"),
+        (4, k, iv, aad, p[:120], c[:120], "5bc94fbc3221a5db94fae95ae7121a47"),
+        (5, k, "cafebabefacedbad", aad, p[:120],
+         "61353b4c2806934a777ff51fa22a4755699b2a714fcdc6f83766e5f97b6c742373806900e49f24b22b097544d4896b424989b5e1ebac0f07c23f4598",
+         "3612d2e79e3b0785561be14aaca2fccb"),
+        (6, k, iv60, aad, p[:120],
+         "8ce24998625615b603a033aca13fb894be9112a5c3a211a8ba262a3cca7e2ca701e4a9a4fba43c90ccdcb281d48c7c6fd62875d2aca417034c34aee5",
+         "619cc5aefffe0bfa462af43c1699d050"),
+        (7, "00" * 24, iv0, "", "", "", "cd33b28ac773f74ba00ed1f312572435"),
+        (8, "00" * 24, iv0, "", "00" * 16, "98e7247c07f0fe411c267e4384b0f600", "2ff58d80033927ab8ef4d4587514f0fb"),
+        (13, "00" * 32, iv0, "", "", "", "530f8afbc74536b9a963b4f1c4cb738b"),
+        (14, "00" * 32, iv0, "", "00" * 16, "cea7403d4d606b6e074ec5d3baf39d18", "d0d1c8a799996bf0265b98b5d48ab919"),
+    ]
+    for no, key, ivx, a, pt, ct, tag in vectors:
+        eq("cipher AES-%d GCM enc test case %d" % (len(key) * 4, no), gcm("enc", key, ivx, a, pt).get("out"), ct + tag)
+        eq("cipher AES-%d GCM dec test case %d" % (len(key) * 4, no), gcm("dec", key, ivx, a, ct + tag).get("out"), pt)
+    # every tag length: truncation of the full tag, decrypts, tampering detected
+    for tb in range(1, 17):
+        full = c[:120] + "5bc94fbc3221a5db94fae95ae7121a47"[:2 * tb]
+        ok = gcm("enc", k, iv, aad, p[:120], tb).get("out") == full
+        ok = ok and gcm("dec", k, iv, aad, full, tb).get("out") == p[:120]
+        ok = ok and gcm("dec", k, iv, aad, flip(full, 60 + tb - 1), tb) == {"error": "auth"}   # last tag byte
+        ok = ok and gcm("dec", k, iv, aad, flip(full, 3), tb) == {"error": "auth"}             # ciphertext
+        ok = ok and gcm("dec", k, iv, flip(aad), full, tb) == {"error": "auth"}                # aad
+        report("cipher AES GCM tagbytes=%d: truncated tag, decrypt, tamper -> auth" % tb, ok)
+    # every kind of IV length against an independent GHASH implementation
+    for klen in (16, 24, 32):
+        key = bytes(range(klen))
+        for ivlen in (1, 7, 8, 11, 12, 13, 16, 17, 32, 100):
+            for alen, plen in ((0, 0), (5, 33), (16, 16), (0, 1)):
+                ivb, ab, pb = bytes(range(1, ivlen + 1)), bytes(range(alen)), bytes(range(100, 100 + plen))
+                ct, tag = py_gcm(key, ivb, ab, pb)
+                got = gcm("enc", key.hex(), ivb.hex(), ab.hex(), pb.hex(), 13).get("out")
+                back = gcm("dec", key.hex(), ivb.hex(), ab.hex(), (ct + tag[:13]).hex(), 13).get("out")
+                report("cipher AES-%d GCM iv %d bytes, aad %d, data %d vs python GHASH" % (klen * 8, ivlen, alen, plen),
+                       got == (ct + tag[:13]).hex() and back == pb.hex(), "got %r" % got)
+    eq("cipher AES GCM aad field optional", W.call(op="cipher", alg="AES", mode="GCM", dir="enc", key=k0, iv=iv0, tagbytes=16, data="").get("out"),
+       "58e2fccefa7e3061367f1d57a4e7455a")
+
+
+def test_g_keywrap():
+    def kw(mode, dir, kek, data):
+        return W.call(op="keywrap", mode=mode, dir=dir, kek=kek, data=data)
+    kek = "000102030405060708090a0b0c0d0e0f101112131415161718191a1b1c1d1e1f"
+    d128 = "00112233445566778899aabbccddeeff"
+    d192 = d128 + "0001020304050607"
+    d256 = d128 + "000102030405060708090a0b0c0d0e0f"
+    for sect, klen, data, want in [
+        ("4.1", 16, d128, "1fa68b0a8112b447aef34bd8fb5a7b829d3e862371d2cfe5"),
+        ("4.2", 24, d128, "96778b25ae6ca435f92b5b97c050aed2468ab8a17ad84e5d"),
+        ("4.3", 32, d128, "64e8c3f9ce0f5ba263e9777905818a2a93c8191e7d6e8ae7"),
+        ("4.4", 24, d192, "031d33264e15d33268f24ec260743edce1c6c7ddee725a936ba814915c6762d2"),
+        ("4.5", 32, d192, "a8f9bc1612c68b3ff6e6f4fbe30e71e4769c8b80a32cb8958cd5d17d6b254da1"),
+        ("4.6", 32, d256, "28c9f404c4b810f4cbccb35cfb87f8263f5786e2d80ed326cbc7f0e71a99f43bfb988b9b7a02dd21"),
+    ]:
+        eq("keywrap rfc3394 wrap RFC 3394 " + sect, kw("rfc3394", "wrap", kek[:2 * klen], data).get("out"), want)
+        eq("keywrap rfc3394 unwrap RFC 3394 " + sect, kw("rfc3394", "unwrap", kek[:2 * klen], want).get("out"), data)
+        eq("keywrap rfc3394 unwrap tampered -> integrity " + sect, kw("rfc3394", "unwrap", kek[:2 * klen], flip(want, 9)), {"error": "integrity"})
+    eq("keywrap rfc3394 unwrap wrong kek -> integrity", kw("rfc3394", "unwrap", "ff" * 16, "1fa68b0a8112b447aef34bd8fb5a7b829d3e862371d2cfe5"), {"error": "integrity"})
+    k5649 = "5840df6e29b02af1ab493b705bf16ea1ae8338f4dcc176a8"
+    for name, data, want in [
+        ("20 octets", "c37b7e6492584340bed12207808941155068f738", "138bdeaa9b8fa7fc61f97742e72248ee5ae6ae5360d1ae6a5f54f373fa543b6a"),
+        ("7 octets", "466f7250617369", "afbeb0f07dfbf5419200f2ccb50bb24f"),
+    ]:
+        eq("keywrap rfc5649 wrap RFC 5649 section 6, " + name, kw("rfc5649", "wrap", k5649, data).get("out"), want)
+        eq("keywrap rfc5649 unwrap RFC 5649 section 6, " + name, kw("rfc5649", "unwrap", k5649, want).get("out"), data)
+        eq("keywrap rfc5649 unwrap tampered -> integrity, " + name, kw("rfc5649", "unwrap", k5649, flip(want, 5)), {"error": "integrity"})
+    # every residue against the definition built on ECB
+    for klen in (16, 24, 32):
+        kb = H(kek[:2 * klen])
+        for n in (1, 7, 8, 9, 15, 16, 17, 24, 31, 32, 33, 64, 65):
+            data = bytes(range(0x30, 0x30 + n))
+            want = py_wrap_5649(kb, data).hex()
+            ok = kw("rfc5649", "wrap", kb.hex(), data.hex()).get("out") == want
+            ok = ok and kw("rfc5649", "unwrap", kb.hex(), want).get("out") == data.hex()
+            report("keywrap rfc5649 AES-%d %d bytes vs definition" % (klen * 8, n), ok)
+        for n in (16, 24, 32, 40, 72):
+            data = bytes(range(0x30, 0x30 + n))
+            want = py_wrap_3394(kb, data).hex()
+            ok = kw("rfc3394", "wrap", kb.hex(), data.hex()).get("out") == want
+            ok = ok and kw("rfc3394", "unwrap", kb.hex(), want).get("out") == data.hex()
+            report("keywrap rfc3394 AES-%d %d bytes vs definition" % (klen * 8, n), ok)
+    # RFC 5649 integrity conditions individually: bad AIV constant, bad length field, non-zero padding
+    kb = H(kek[:32])
+    blocks = [b"ABCDEFGH", b"IJK\0\0\0\0\0"]
+    good = py_wrap(kb, blocks, H("a65959a6") + (11).to_bytes(4, "big"))
+    eq("keywrap rfc5649 unwrap hand-built good", kw("rfc5649", "unwrap", kb.hex(), good.hex()).get("out"), b"ABCDEFGHIJK".hex())
+    for name, a, bl in [
+        ("wrong AIV constant", H("a6a6a6a6") + (11).to_bytes(4, "big"), blocks),
+        ("rfc3394 IV", H("a6a6a6a6a6a6a6a6"), blocks),
+        ("MLI too large", H("a65959a6") + (17).to_bytes(4, "big"), blocks),
+        ("MLI too small", H("a65959a6") + (8).to_bytes(4, "big"), blocks),
+        ("MLI zero", H("a65959a6") + (0).to_bytes(4, "big"), blocks),
+        ("non-zero padding", H("a65959a6") + (11).to_bytes(4, "big"), [b"ABCDEFGH", b"IJK\0\0\0\0\1"]),
+    ]:
+        eq("keywrap rfc5649 unwrap rejects " + name, kw("rfc5649", "unwrap", kb.hex(), py_wrap(kb, bl, a).hex()), {"error": "integrity"})
+    one = ecb("AES", kb, H("a65959a6") + (9).to_bytes(4, "big") + b"ABCDEFGH")
+    eq("keywrap rfc5649 unwrap rejects single block with MLI 9", kw("rfc5649", "unwrap", kb.hex(), one.hex()), {"error": "integrity"})
+    eq("keywrap rfc3394 unwrap rejects rfc5649 output", kw("rfc3394", "unwrap", kb.hex(), good.hex()), {"error": "integrity"})
+
+
+def test_h_kcv():
+    for alg, key in [("AES", "00" * 16), ("AES", "2b7e151628aed2a6abf7158809cf4f3c"), ("AES", "11" * 24), ("AES", "22" * 32),
+                     ("DES", "0123456789abcdef"), ("3DES", "0123456789abcdef23456789abcdef01456789abcdef0123"),
+                     ("3DES", "0123456789abcdef23456789abcdef01")]:
+        bs = 16 if alg == "AES" else 8
+        eq("kcv %s %d-byte key == ECB(0)[:3]" % (alg, len(key) // 2), W.out(op="kcv", alg=alg, key=key), ecb(alg, H(key), b"\0" * bs)[:3].hex())
+    eq("kcv AES-128 zero key known value", W.out(op="kcv", alg="AES", key="00" * 16), "66e94b")  # AES-128(0,0)=66e94bd4ef8a2c3b...
+    eq("kcv DES weak key known value", W.out(op="kcv", alg="DES", key="0101010101010101"), "8ca64d")  # DES(0101..,0)=8ca64de9c1b123a7
+    eq("kcv 3DES two-key == three-key k1|k2|k1", W.out(op="kcv", alg="3DES", key="0123456789abcdef23456789abcdef01"),
+       W.out(op="kcv", alg="3DES", key="0123456789abcdef23456789abcdef010123456789abcdef"))
+    for key in ("", "00", "0123456789abcdef0123"):
+        eq("kcv GENERIC %d-byte key == SHA-1(key)[:3]" % (len(key) // 2), W.out(op="kcv", alg="GENERIC", key=key), hashlib.sha1(H(key)).digest()[:3].hex())
+
+
+def rsa_key():
+    return dict(n=hx(RSA_N), e=hx(RSA_E), d=hx(RSA_D), p=hx(RSA_P), q=hx(RSA_Q))
+
+
+def rsa_pub():
+    return dict(n=hx(RSA_N), e=hx(RSA_E))
+
+
+def test_i_rsa_sign():
+    k = (RSA_N.bit_length() + 7) // 8
+    msg = b"The quick brown fox"
+
+    def sign(**kw):
+        return W.call(op="rsa_sign", **dict(rsa_key(), **kw))
+
+    def verify(**kw):
+        return W.call(op="rsa_verify", **dict(rsa_pub(), **kw)).get("ok")
+
+    def public_op(sig_hex):
+        return pow(int(sig_hex, 16), RSA_E, RSA_N).to_bytes(k, "big")
+
+    for h in PYHASH:
+        t = H(DIGESTINFO[h]) + pyhash(h, msg)
+        sig = sign(pad="pkcs1", hash=h, msg=msg.hex()).get("out", "00")
+        ok = len(sig) == 2 * k and public_op(sig) == py_type1(k, t)
+        ok = ok and sign(pad="pkcs1", hash=h, msg=msg.hex()).get("out") == sig                  # deterministic
+        ok = ok and hx(pow(int.from_bytes(py_type1(k, t), "big"), RSA_D, RSA_N), k) == sig
+        report("rsa_sign pkcs1 %s == python EMSA-PKCS1-v1_5 encoding" % h, ok)
+        ok = verify(pad="pkcs1", hash=h, msg=msg.hex(), sig=sig) is True
+        ok = ok and verify(pad="pkcs1", hash=h, msg=(msg + b"!").hex(), sig=sig) is False
+        ok = ok and verify(pad="pkcs1", hash=h, msg=msg.hex(), sig=flip(sig, 100)) is False
+        ok = ok and verify(pad="pkcs1", hash="SHA-1" if h != "SHA-1" else "SHA-256", msg=msg.hex(), sig=sig) is False
+        ok = ok and verify(pad="pkcs1", hash=h, msg=msg.hex(), sig=sig[2:]) is False
+        ok = ok and verify(pad="pkcs1", hash=h, msg=msg.hex(), sig="00" + sig) is False
+        report("rsa_verify pkcs1 %s: accept, reject tampered msg / sig / hash / length" % h, ok)
+        eq("rsa_sign pkcs1_raw with DigestInfo(%s) == pkcs1" % h, sign(pad="pkcs1_raw", msg=t.hex()).get("out"), sig)
+        report("rsa_verify pkcs1_raw with DigestInfo(%s)" % h, verify(pad="pkcs1_raw", msg=t.hex(), sig=sig) is True
+               and verify(pad="pkcs1_raw", msg=flip(t.hex(), 20), sig=sig) is False)
+    for data in (b"", b"\0", bytes(range(36)), bytes(range(k - 11))):
+        sig = sign(pad="pkcs1_raw", msg=data.hex()).get("out", "00")
+        report("rsa_sign pkcs1_raw %d arbitrary bytes == type-1 padding" % len(data), public_op(sig) == py_type1(k, data)
+               and verify(pad="pkcs1_raw", msg=data.hex(), sig=sig) is True)
+    report("rsa_sign pkcs1_raw too long -> error", "error" in sign(pad="pkcs1_raw", msg="00" * (k - 10)))
+
+    embits = RSA_N.bit_length() - 1
+    for h in PYHASH:
+        hl = len(pyhash(h, b""))
+        mh = pyhash(h, msg)
+        for sl in sorted(set([0, 1, 20, hl, k - hl - 2])):
+            sig = sign(pad="pss", hash=h, saltlen=sl, msg=msg.hex()).get("out", "00")
+            sig2 = sign(pad="pss_raw", hash=h, saltlen=sl, msg=mh.hex()).get("out", "00")
+            ok = len(sig) == 2 * k and py_pss_verify(h, mh, public_op(sig), embits, sl)
+            ok = ok and len(sig2) == 2 * k and py_pss_verify(h, mh, public_op(sig2), embits, sl)
+            ok = ok and (sl == 0 or sl < 16 or sig != sig2) and (sl != 0 or sig == sig2)   # randomised unless the salt is empty
+            report("rsa_sign pss / pss_raw %s saltlen %d verified by python EMSA-PSS" % (h, sl), ok)
+            ok = verify(pad="pss", hash=h, saltlen=sl, msg=msg.hex(), sig=sig) is True
+            ok = ok and verify(pad="pss_raw", hash=h, saltlen=sl, msg=mh.hex(), sig=sig) is True
+            ok = ok and verify(pad="pss", hash=h, saltlen=sl, msg=msg.hex(), sig=sig2) is True
+            ok = ok and verify(pad="pss", hash=h, saltlen=sl + 1, msg=msg.hex(), sig=sig) is False
+            ok = ok and verify(pad="pss", hash=h, saltlen=sl, msg=(msg + b"!").hex(), sig=sig) is False
+            ok = ok and verify(pad="pss_raw", hash=h, saltlen=sl, msg=flip(mh.hex()), sig=sig) is False
+            ok = ok and verify(pad="pss", hash=h, saltlen=sl, msg=msg.hex(), sig=flip(sig, 7)) is False
+            report("rsa_verify pss / pss_raw %s saltlen %d: accept, reject wrong saltlen / msg / sig" % (h, sl), ok)
+        report("rsa_sign pss %s salt too long -> error" % h, "error" in sign(pad="pss", hash=h, saltlen=k - hl - 1, msg=msg.hex()))
+        report("rsa_sign pss_raw %s wrong hash length -> error" % h, "error" in sign(pad="pss_raw", hash=h, saltlen=hl, msg=mh.hex() + "00"))
+    # python-made PSS signature (fixed salt) accepted by the worker
+    h, salt = "SHA-256", bytes(range(32))
+    mh = pyhash(h, msg)
+    emlen = (embits + 7) // 8
+    hh = pyhash(h, b"\0" * 8 + mh + salt)
+    db = b"\0" * (emlen - 32 - 32 - 2) + b"\1" + salt
+    mdb = bytearray(xor(db, mgf1(h, hh, len(db))))
+    mdb[0] &= 0xFF >> (8 * emlen - embits)
+    em = bytes(mdb) + hh + b"\xbc"
+    sig = hx(pow(int.from_bytes(em, "big"), RSA_D, RSA_N), k)
+    report("rsa_verify pss accepts python-made signature", verify(pad="pss", hash=h, saltlen=32, msg=msg.hex(), sig=sig) is True)
+    report("rsa_verify pss default saltlen == hash length", W.call(op="rsa_verify", pad="pss", hash=h, msg=msg.hex(), sig=sig, **rsa_pub()).get("ok") is True)
+
+    m = b"\0\0\x13" + bytes(range(k - 3))
+    sig = sign(pad="raw", msg=m.hex()).get("out", "00")
+    eq("rsa_sign raw == m^d mod n", sig, hx(pow(int.from_bytes(m, "big"), RSA_D, RSA_N), k))
+    report("rsa_verify raw: accept, reject tampered", verify(pad="raw", msg=m.hex(), sig=sig) is True
+           and verify(pad="raw", msg=flip(m.hex(), 5), sig=sig) is False and verify(pad="raw", msg=m.hex(), sig=flip(sig, 5)) is False)
+    report("rsa_sign raw short msg -> error", "error" in sign(pad="raw", msg=m[1:].hex()))
+    report("rsa_sign raw msg >= n -> error", "error" in sign(pad="raw", msg="ff" * k))
+    report("rsa_sign unknown pad -> error", "error" in sign(pad="x931", hash="SHA-1", msg="00"))
+    report("rsa_sign unknown hash -> error", "error" in sign(pad="pkcs1", hash="SHA3-256", msg="00"))
+
+
+def test_j_rsa_crypt():
+    k = (RSA_N.bit_length() + 7) // 8
+
+    def enc(**kw):
+        return W.call(op="rsa_encrypt", **dict(rsa_pub(), **kw))
+
+    def dec(**kw):
+        return W.call(op="rsa_decrypt", **dict(rsa_key(), **kw))
+
+    def private_op(ct_hex):
+        return pow(int(ct_hex, 16), RSA_D, RSA_N).to_bytes(k, "big")
+
+    def public_op(em):
+        return hx(pow(int.from_bytes(em, "big"), RSA_E, RSA_N), k)
+
+    for msg in (b"", b"x", b"secret message", bytes(range(k - 11))):
+        ct = enc(pad="pkcs1", msg=msg.hex()).get("out", "00")
+        em = private_op(ct)
+        ps = em[2:k - len(msg) - 1]
+        ok = len(ct) == 2 * k and em[:2] == b"\0\2" and len(ps) >= 8 and 0 not in ps and em[k - len(msg) - 1] == 0 and em[k - len(msg):] == msg
+        ok = ok and dec(pad="pkcs1", ct=ct).get("out") == msg.hex()
+        ok = ok and enc(pad="pkcs1", msg=msg.hex()).get("out") != ct   # randomised
+        report("rsa_encrypt / rsa_decrypt pkcs1 %d bytes, EME checked in python" % len(msg), ok)
+    report("rsa_encrypt pkcs1 too long -> error", "error" in enc(pad="pkcs1", msg="00" * (k - 10)))
+    em = b"\0\2" + b"\x55" * (k - 3 - 5) + b"\0hello"
+    eq("rsa_decrypt pkcs1 of python-made ciphertext", dec(pad="pkcs1", ct=public_op(em)).get("out"), b"hello".hex())
+    for name, bad in [("block type 1", b"\0\1" + em[2:]), ("first byte not 0", b"\1\2" + em[2:]), ("no separator", b"\0\2" + b"\x55" * (k - 2)),
+                      ("padding shorter than 8", b"\0\2" + b"\x55" * 7 + b"\0" + b"m" * (k - 10))]:
+        report("rsa_decrypt pkcs1 rejects " + name, "error" in dec(pad="pkcs1", ct=public_op(bad)))
+    report("rsa_decrypt ct >= n -> error", "error" in dec(pad="pkcs1", ct="ff" * k))
+
+    for h in PYHASH:
+        hl = len(pyhash(h, b""))
+        for label in (b"", b"label", b"\0bin\xff\0"):
+            for msg in (b"", b"secret message", bytes(range(k - 2 * hl - 2))):
+                ct = enc(pad="oaep", hash=h, label=label.hex(), msg=msg.hex()).get("out", "00")
+                ok = len(ct) == 2 * k and py_oaep_decode(h, private_op(ct), label) == msg
+                ok = ok and dec(pad="oaep", hash=h, label=label.hex(), ct=ct).get("out") == msg.hex()
+                ok = ok and "error" in dec(pad="oaep", hash=h, label=(label + b"x").hex(), ct=ct)
+                ct2 = public_op(py_oaep_encode(h, k, msg, label, bytes(range(hl))))
+                ok = ok and dec(pad="oaep", hash=h, label=label.hex(), ct=ct2).get("out") == msg.hex()
+                report("rsa_encrypt / rsa_decrypt oaep %s label %d bytes msg %d bytes vs python OAEP" % (h, len(label), len(msg)), ok)
+        report("rsa_encrypt oaep %s too long -> error" % h, "error" in enc(pad="oaep", hash=h, label="", msg="00" * (k - 2 * hl - 1)))
+    ct = enc(pad="oaep", hash="SHA-256", msg=b"abc".hex()).get("out", "00")
+    report("rsa_encrypt oaep label optional", dec(pad="oaep", hash="SHA-256", label="", ct=ct).get("out") == b"abc".hex())
+    report("rsa_decrypt oaep wrong hash -> error", "error" in dec(pad="oaep", hash="SHA-1", label="", ct=ct))
+    em = bytearray(py_oaep_encode("SHA-256", k, b"abc", b"", bytes(32)))
+    em[0] = 1
+    report("rsa_decrypt oaep rejects first byte != 0", "error" in dec(pad="oaep", hash="SHA-256", label="", ct=public_op(bytes(em))))
+
+    m = b"\0\0\x13" + bytes(range(k - 3))
+    ct = enc(pad="raw", msg=m.hex()).get("out")
+    eq("rsa_encrypt raw == m^e mod n", ct, public_op(m))
+    eq("rsa_decrypt raw returns the full modulus length", dec(pad="raw", ct=ct).get("out"), m.hex())
+    eq("rsa_decrypt raw left-pads a small result", dec(pad="raw", ct=public_op(b"\5")).get("out"), "00" * (k - 1) + "05")
+    eq("rsa_encrypt raw accepts a short msg", enc(pad="raw", msg="05").get("out"), public_op(b"\5"))
+    report("rsa_encrypt raw msg >= n -> error", "error" in enc(pad="raw", msg="ff" * k))
+    report("rsa_encrypt unknown pad -> error", "error" in enc(pad="sslv23", msg="00"))
+
+
+RFC6979_DSA = dict(  # RFC 6979 A.2.1
+    p="86f5ca03dcfeb225063ff830a0c769b9dd9d6153ad91d7ce27f787c43278b447e6533b86b18bed6e8a48b784a14c252c"
+      "5be0dbf60b86d6385bd2f12fb763ed8873abfd3f5ba2e0a8c0a59082eac056935e529daf7c610467899c77adedfc846c"
+      "881870b7b19b2b58f9be0521a17002e3bdd6b86685ee90b3d9a1b02b782b1779",
+    q="996f967f6c8e388d9e28d01e205fba957a5698b1",
+    g="07b0f92546150b62514bb771e2a0c0ce387f03bda6c56b505209ff25fd3c133d89bbcd97e904e09114d9a7defdeadfc9"
+      "078ea544d2e401aeecc40bb9fbbf78fd87995a10a1c27cb7789b594ba7efb5c4326a9fe59a070e136db77175464adca4"
+      "17be5dce2f40d10a46a3a3943f26ab7fd9c0398ff8c76ee0a56826a8a88f1dbd")
+RFC6979_DSA_X = "411602cb19a6ccc34494d79d98ef1e7ed5af25f7"
+RFC6979_DSA_Y = ("5df5e01ded31d0297e274e1691c192fe5868fef9e19a84776454b100cf16f65392195a38b90523e2542ee61871c0440c"
+                 "b87c322fc4b4d2ec5e1e7ec766e1be8d4ce935437dc11c3c8fd426338933ebfe739cb3465f4d3668c5e473508253b1e6"
+                 "82f65cbdc4fae93c2ea212390e54905a86e2223170b44eaa7da5dd9ffcfb7f3b")
+DSA_HASHES = ["SHA-1", "SHA-224", "SHA-256", "SHA-384", "SHA-512"]
+
+
+def test_k_dsa():
+    sample = b"sample".hex()
+    for h, want in [
+        ("SHA-1", "2e1a0c2562b2912caaf89186fb0f42001585da55" "29efb6b0aff2d7a68eb70ca313022253b9a88df5"),
+        ("SHA-224", "4bc3b686aea70145856814a6f1bb53346f02101e" "410697b92295d994d21edd2f4ada85566f6f94c1"),
+        ("SHA-256", "81f2f5850be5bc123c43f71a3033e9384611c545" "4cdd914b65eb6c66a8aaad27299bee6b035f5e89"),
+        ("SHA-384", "07f2108557ee0e3921bc1774f1ca9b410b4ce65a" "54df70456c86fac10fab47c1949ab83f2c6f7595"),
+        ("SHA-512", "16c3491f9b8c3fbbdd5e7a7b667057f0d8ee8e1b" "02c36a127a7b89edbb72e4ffbc71dabc7d4fc69c"),
+    ]:
+        eq("dsa_sign %s RFC 6979 A.2.1 'sample'" % h, W.out(op="dsa_sign", x=RFC6979_DSA_X, hash=h, msg=sample, **RFC6979_DSA), want)
+        ok = W.call(op="dsa_verify", y=RFC6979_DSA_Y, hash=h, msg=sample, sig=want, **RFC6979_DSA).get("ok") is True
+        ok = ok and W.call(op="dsa_verify", y=RFC6979_DSA_Y, hash=h, msg=b"sampl3".hex(), sig=want, **RFC6979_DSA).get("ok") is False
+        ok = ok and W.call(op="dsa_verify", y=RFC6979_DSA_Y, hash=h, msg=sample, sig=flip(want, 25), **RFC6979_DSA).get("ok") is False
+        ok = ok and W.call(op="dsa_verify", y=RFC6979_DSA_Y, hash="Raw", msg=pyhash(h, b"sample").hex(), sig=want, **RFC6979_DSA).get("ok") is True
+        report("dsa_verify %s RFC 6979 A.2.1: accept (hashed and Raw), reject tampered" % h, ok)
+    msg = b"message to sign"
+    for name, p, q, g, x in [("1024/160", DSA1024_P, DSA1024_Q, DSA1024_G, DSA1024_X), ("2048/256", DSA2048_P, DSA2048_Q, DSA2048_G, DSA2048_X)]:
+        grp = dict(p=hx(p), q=hx(q), g=hx(g))
+        y = pow(g, x, p)
+        ql = (q.bit_length() + 7) // 8
+        for h in DSA_HASHES:
+            sig = W.out(op="dsa_sign", x=hx(x), hash=h, msg=msg.hex(), **grp)
+            mh = pyhash(h, msg)
+            ok = len(sig) == 4 * ql and py_dsa_verify(p, q, g, y, mh, H(sig))
+            rawsig = W.out(op="dsa_sign", x=hx(x), hash="Raw", msg=mh.hex(), **grp)
+            ok = ok and len(rawsig) == 4 * ql and py_dsa_verify(p, q, g, y, mh, H(rawsig))
+            report("dsa_sign %s %s and Raw verified by python DSA" % (name, h), ok)
+            ok = W.call(op="dsa_verify", y=hx(y), hash=h, msg=msg.hex(), sig=sig, **grp).get("ok") is True
+            ok = ok and W.call(op="dsa_verify", y=hx(y), hash=h, msg=msg.hex(), sig=rawsig, **grp).get("ok") is True
+            ok = ok and W.call(op="dsa_verify", y=hx(y), hash="Raw", msg=mh.hex(), sig=sig, **grp).get("ok") is True
+            ok = ok and W.call(op="dsa_verify", y=hx(y), hash=h, msg=(msg + b".").hex(), sig=sig, **grp).get("ok") is False
+            ok = ok and W.call(op="dsa_verify", y=hx(y), hash=h, msg=msg.hex(), sig=flip(sig, 3), **grp).get("ok") is False
+            ok = ok and W.call(op="dsa_verify", y=hx(y), hash=h, msg=msg.hex(), sig=flip(sig, ql + 3), **grp).get("ok") is False
+            ok = ok and W.call(op="dsa_verify", y=hx(y + 1), hash=h, msg=msg.hex(), sig=sig, **grp).get("ok") is False
+            ok = ok and W.call(op="dsa_verify", y=hx(y), hash=h, msg=msg.hex(), sig=sig[2:], **grp).get("ok") is False
+            ok = ok and W.call(op="dsa_verify", y=hx(y), hash=h, msg=msg.hex(), sig="00" * (2 * ql), **grp).get("ok") is False
+            report("dsa_verify %s %s: accept, reject tampered msg / r / s / y / length / zero" % (name, h), ok)
+    report("dsa_sign unknown hash -> error", "error" in W.call(op="dsa_sign", x=RFC6979_DSA_X, hash="MD5", msg="", **RFC6979_DSA))
+    report("dsa_sign leading zeros in integers accepted", W.out(op="dsa_sign", x="0000" + RFC6979_DSA_X, hash="SHA-1", msg=sample,
+           p="00" + RFC6979_DSA["p"], q=RFC6979_DSA["q"], g=RFC6979_DSA["g"]).startswith("2e1a0c25"))
+
+
+EC_KEYS = {  # RFC 6979 A.2.5 / A.2.6 / A.2.7: private key, public key
+    "secp256r1": ("c9afa9d845ba75166b5c215767b1d6934e50c3db36e89b127b8a622b120f6721",
+                  "60fed4ba255a9d31c961eb74c6356d68c049b8923b61fa6ce669622e60f29fb6"
+                  "7903fe1008b8bc99a41ae9e95628bc64f2f1b20c2d7e9f5177a3c294d4462299"),
+    "secp384r1": ("6b9d3dad2e1b8c1c05b19875b6659f4de23c3b667bf297ba9aa47740787137d896d5724e4c70a825f872c9ea60d2edf5",
+                  "ec3a4e415b4e19a4568618029f427fa5da9a8bc4ae92e02e06aae5286b300c64def8f0ea9055866064a254515480bc13"
+                  "8015d9b72d7d57244ea8ef9ac0c621896708a59367f9dfb9f54ca84b3f1c9db1288b231c3ae0d4fe7344fd2533264720"),
+    "secp521r1": ("00fad06daa62ba3b25d2fb40133da757205de67f5bb0018fee8c86e1b68c7e75caa896eb32f1f47c70855836a6d16fcc1466f6d8fbec67db89ec0c08b0e996b83538",
+                  "01894550d0785932e00eaa23b694f213f8c3121f86dc97a04e5a7167db4e5bcd371123d46e45db6b5d5370a7f20fb633155d38ffa16d2bd761dcac474b9a2f5023a4"
+                  "00493101c962cd4d2fddf782285e64584139c2f91b47f87ff82354d6630f746a28a0db25741b5b34a828008b22acc23f924faafbd4d33f81ea66956dfeaa2bfdfcf5"),
+}
+
+
+def test_l_ecdsa():
+    sample = b"sample".hex()
+    for curve, (d, pub) in sorted(EC_KEYS.items()):
+        eq("ec_pub %s RFC 6979 key pair" % curve, W.call(op="ec_pub", curve=curve, d=d).get("point"), "04" + pub)
+    for curve, h, m, want in [
+        ("secp256r1", "SHA-1", b"sample", "61340c88c3aaebeb4f6d667f672ca9759a6ccaa9fa8811313039ee4a35471d32"
+                                          "6d7f147dac089441bb2e2fe8f7a3fa264b9c475098fdcf6e00d7c996e1b8b7eb"),
+        ("secp256r1", "SHA-256", b"sample", "efd48b2aacb6a8fd1140dd9cd45e81d69d2c877b56aaf991c34d0ea84eaf3716"
+                                            "f7cb1c942d657c41d436c7a1b6e29f65f3e900dbb9aff4064dc4ab2f843acda8"),
+        ("secp256r1", "SHA-384", b"sample", "0eafea039b20e9b42309fb1d89e213057cbf973dc0cfc8f129edddc800ef7719"
+                                            "4861f0491e6998b9455193e34e7b0d284ddd7149a74b95b9261f13abde940954"),
+        ("secp256r1", "SHA-512", b"sample", "8496a60b5e9b47c825488827e0495b0e3fa109ec4568fd3f8d1097678eb97f00"
+                                            "2362ab1adbe2b8adf9cb9edab740ea6049c028114f2460f96554f61fae3302fe"),
+        ("secp256r1", "SHA-256", b"test", "f1abb023518351cd71d881567b1ea663ed3efcf6c5132b354f28d3b0b7d38367"
+                                          "019f4113742a2b14bd25926b49c649155f267e60d3814b4c0cc84250e46f0083"),
+        ("secp384r1", "SHA-384", b"sample",
+         "94edbb92a5ecb8aad4736e56c691916b3f88140666ce9fa73d64c4ea95ad133c81a648152e44acf96e36dd1e80fabe46"
+         "99ef4aeb15f178cea1fe40db2603138f130e740a19624526203b6351d0a3a94fa329c145786e679e7b82c71a38628ac8"),
+        ("secp521r1", "SHA-512", b"sample",
+         "00c328fafcbd79dd77850370c46325d987cb525569fb63c5d3bc53950e6d4c5f174e25a1ee9017b5d450606add152b534931d7d4e8455cc91f9b15bf05ec36e377fa"
+         "00617cce7cf5064806c467f678d3b4080d6f1cc50af26ca209417308281b68af282623eaa63e5b5c0723d8b8c37ff0777b1a20f8ccb1dccc43997f1ee0e44da4a67a"),
+    ]:
+        d, pub = EC_KEYS[curve]
+        name = "%s %s '%s'" % (curve, h, m.decode())
+        eq("ecdsa_sign RFC 6979 " + name, W.out(op="ecdsa_sign", curve=curve, d=d, hash=h, msg=m.hex()), want)
+        v = dict(op="ecdsa_verify", curve=curve, point="04" + pub)
+        ok = W.call(hash=h, msg=m.hex(), sig=want, **v).get("ok") is True
+        ok = ok and W.call(hash="Raw", msg=pyhash(h, m).hex(), sig=want, **v).get("ok") is True
+        ok = ok and W.call(hash=h, msg=(m + b"x").hex(), sig=want, **v).get("ok") is False
+        ok = ok and W.call(hash=h, msg=m.hex(), sig=flip(want, 10), **v).get("ok") is False
+        ok = ok and W.call(hash=h, msg=m.hex(), sig=flip(want, len(want) // 2 - 1), **v).get("ok") is False
+        ok = ok and W.call(hash=h, msg=m.hex(), sig=want[2:], **v).get("ok") is False
+        ok = ok and W.call(hash=h, msg=m.hex(), sig="00" * (len(want) // 2), **v).get("ok") is False
+        report("ecdsa_verify RFC 6979 %s: accept (hashed and Raw), reject tampered" % name, ok)
+    msg = b"another message"
+    for curve, (d, pub) in sorted(EC_KEYS.items()):
+        flen = len(pub) // 4
+        for h in DSA_HASHES:
+            sig = W.out(op="ecdsa_sign", curve=curve, d=d, hash=h, msg=msg.hex())
+            rawsig = W.out(op="ecdsa_sign", curve=curve, d=d, hash="Raw", msg=pyhash(h, msg).hex())
+            v = dict(op="ecdsa_verify", curve=curve, point="04" + pub)
+            ok = len(sig) == 4 * flen and len(rawsig) == 4 * flen
+            ok = ok and W.call(hash=h, msg=msg.hex(), sig=sig, **v).get("ok") is True
+            ok = ok and W.call(hash=h, msg=msg.hex(), sig=rawsig, **v).get("ok") is True
+            ok = ok and W.call(hash=h, msg=msg.hex(), sig=flip(sig, 1), **v).get("ok") is False
+            other = W.call(op="ec_pub", curve=curve, d="02").get("point")
+            ok = ok and W.call(op="ecdsa_verify", curve=curve, point=other, hash=h, msg=msg.hex(), sig=sig).get("ok") is False
+            report("ecdsa sign -> verify %s %s (hashed and Raw), wrong key rejected" % (curve, h), ok)
+    report("ecdsa_verify point not on curve -> error", "error" in W.call(op="ecdsa_verify", curve="secp256r1", hash="SHA-256", msg="", sig="00" * 64,
+           point=flip("04" + EC_KEYS["secp256r1"][1], 64)))
+    report("ecdsa_verify compressed point -> error", "error" in W.call(op="ecdsa_verify", curve="secp256r1", hash="SHA-256", msg="", sig="00" * 64,
+           point="03" + EC_KEYS["secp256r1"][1][:64]))
+
+
+def test_m_eddsa():
+    v25519 = [  # RFC 8032 7.1
+        ("9d61b19deffd5a60ba844af492ec2cc44449c5697b326919703bac031cae7f60", "d75a980182b10ab7d54bfed3c964073a0ee172f3daa62325af021a68f707511a", "",
+         "e5564300c360ac729086e2cc806e828a84877f1eb8e5d974d873e065224901555fb8821590a33bacc61e39701cf9b46bd25bf5f0595bbe24655141438e7a100b"),
+        ("4ccd089b28ff96da9db6c346ec114e0f5b8a319f35aba624da8cf6ed4fb8a6fb", "3d4017c3e843895a92b70aa74d1b7ebc9c982ccf2ec4968cc0cd55f12af4660c", "72",
+         "92a009a9f0d4cab8720e820b5f642540a2b27b5416503f8fb3762223ebdb69da085ac1e43e15996e458f3613d0f11d8c387b2eaeb4302aeeb00d291612bb0c00"),
+        ("c5aa8df43f9f837bedb7442f31dcb7b166d38535076f094b85ce3a2e0b4458f7", "fc51cd8e6218a1a38da47ed00230f0580816ed13ba3303ac5deb911548908025", "af82",
+         "6291d657deec24024827e69c3abe01a30ce548a284743a445e3680d7db5ac3ac18ff9b538d16f290ae67f760984dc6594a7c15e9716ed28dc027beceea1ec40a"),
+    ]
+    v448 = [  # RFC 8032 7.4
+        ("6c82a562cb808d10d632be89c8513ebf6c929f34ddfa8c9f63c9960ef6e348a3528c8a3fcc2f044e39a3fc5b94492f8f032e7549a20098f95b",
+         "5fd7449b59b461fd2ce787ec616ad46a1da1342485a70e1f8a0ea75d80e96778edf124769b46c7061bd6783df1e50f6cd1fa1abeafe8256180", "",
+         "533a37f6bbe457251f023c0d88f976ae2dfb504a843e34d2074fd823d41a591f2b233f034f628281f2fd7a22ddd47d7828c59bd0a21bfd3980"
+         "ff0d2028d4b18a9df63e006c5d1c2d345b925d8dc00b4104852db99ac5c7cdda8530a113a0f4dbb61149f05a7363268c71d95808ff2e652600"),
+        ("c4eab05d357007c632f3dbb48489924d552b08fe0c353a0d4a1f00acda2c463afbea67c5e8d2877c5e3bc397a659949ef8021e954e0a12274e",
+         "43ba28f430cdff456ae531545f7ecd0ac834a55d9358c0372bfa0c6c6798c0866aea01eb00742802b8438ea4cb82169c235160627b4c3a9480", "03",
+         "26b8f91727bd62897af15e41eb43c377efb9c610d48f2335cb0bd0087810f4352541b143c4b981b7e18f62de8ccdf633fc1bf037ab7cd77980"
+         "5e0dbcc0aae1cbcee1afb2e027df36bc04dcecbf154336c19f0af7e0a6472905e799f1953d2a0ff3348ab21aa4adafd1d234441cf807c03a00"),
+    ]
+    for curve, rfc, vectors in (("Ed25519", "RFC 8032 7.1", v25519), ("Ed448", "RFC 8032 7.4", v448)):
+        for i, (d, pub, msg, sig) in enumerate(vectors):
+            name = "%s %s vector %d" % (curve, rfc, i + 1)
+            eq("eddsa_pub " + name, W.call(op="eddsa_pub", curve=curve, d=d).get("pub"), pub)
+            eq("eddsa_sign " + name, W.out(op="eddsa_sign", curve=curve, d=d, msg=msg), sig)
+            v = dict(op="eddsa_verify", curve=curve)
+            ok = W.call(pub=pub, msg=msg, sig=sig, **v).get("ok") is True
+            ok = ok and W.call(pub=pub, msg=msg + "00", sig=sig, **v).get("ok") is False
+            ok = ok and W.call(pub=pub, msg=msg, sig=flip(sig, 0), **v).get("ok") is False
+            ok = ok and W.call(pub=pub, msg=msg, sig=flip(sig, len(sig) // 2 - 2), **v).get("ok") is False
+            ok = ok and W.call(pub=vectors[(i + 1) % len(vectors)][1], msg=msg, sig=sig, **v).get("ok") is False
+            ok = ok and W.call(pub=pub, msg=msg, sig=sig[2:], **v).get("ok") is False
+            report("eddsa_verify %s: accept, reject tampered msg / R / S / key / length" % name, ok)
+        d = vectors[0][0]
+        long_msg = bytes(range(256)) * 5
+        sig = W.out(op="eddsa_sign", curve=curve, d=d, msg=long_msg.hex())
+        report("eddsa %s sign -> verify 1280 byte message, deterministic" % curve,
+               W.call(op="eddsa_verify", curve=curve, pub=vectors[0][1], msg=long_msg.hex(), sig=sig).get("ok") is True
+               and W.out(op="eddsa_sign", curve=curve, d=d, msg=long_msg.hex()) == sig)
+    report("eddsa unknown curve -> error", "error" in W.call(op="eddsa_pub", curve="Ed41417", d="00" * 32))
+
+
+def test_n_dh_ecdh_xdh():
+    for name, p, q, g in (("1024", DSA1024_P, DSA1024_Q, DSA1024_G), ("2048", DSA2048_P, DSA2048_Q, DSA2048_G)):
+        plen = (p.bit_length() + 7) // 8
+        xa, xb = 0x1234567 + (q >> 3), 0x7654321 + (q >> 5)
+        ya, yb = pow(g, xa, p), pow(g, xb, p)
+        za = W.out(op="dh", p=hx(p), g=hx(g), x=hx(xa), peer=hx(yb))
+        zb = W.out(op="dh", p=hx(p), g=hx(g), x=hx(xb), peer=hx(ya))
+        report("dh %s-bit: both sides agree and == pow(peer, x, p)" % name, za == zb == hx(pow(yb, xa, p), plen))
+        x = 2
+        while pow(yb, x, p) >> (8 * (plen - 1)):   # find a secret with a leading zero byte
+            x += 1
+        z = W.out(op="dh", p=hx(p), g=hx(g), x=hx(x), peer=hx(yb))
+        report("dh %s-bit: result left-padded to |p| (x=%d gives a leading zero byte)" % (name, x), len(z) == 2 * plen and z.startswith("00") and int(z, 16) == pow(yb, x, p))
+        eq("dh %s-bit: peer = 1 gives 00..01" % name, W.out(op="dh", p=hx(p), g=hx(g), x=hx(xa), peer="01"), hx(1, plen))
+    # NIST CAVS ECC CDH primitive, P-256, count 0
+    d = "7d7dc5f71eb29ddaf80d6214632eeae03d9058af1fb6d22ed80badb62bc1a534"
+    peer = "04700c48f77f56584c5cc632ca65640db91b6bacce3a4df6b42ce7cc838833d287db71e509e3fd9b060ddb20ba5c51dcc5948d46fbf640dfe0441782cab85fa4ac"
+    eq("ecdh secp256r1 NIST CAVS vector", W.out(op="ecdh", curve="secp256r1", d=d, peer=peer), "46fc62106420ff012e54a434fbdd2d25ccc5852060561e68040dd7778997bd7b")
+    eq("ec_pub secp256r1 NIST CAVS vector", W.call(op="ec_pub", curve="secp256r1", d=d).get("point"),
+       "04ead218590119e8876b29146ff89ca61770c4edbbf97d38ce385ed281d8a6b23028af61281fd35e2fa7002523acc85a429cb06ee6648325389f59edfce1405141")
+    for curve, (da, pa) in sorted(EC_KEYS.items()):
+        flen = len(pa) // 4
+        db = "0123456789abcdef" * 4
+        pb = W.call(op="ec_pub", curve=curve, d=db).get("point")
+        za = W.out(op="ecdh", curve=curve, d=da, peer=pb)
+        zb = W.out(op="ecdh", curve=curve, d=db, peer="04" + pa)
+        report("ecdh %s: both sides agree, field length" % curve, za == zb and len(za) == 2 * flen)
+        eq("ecdh %s: d=1 returns the peer x coordinate" % curve, W.out(op="ecdh", curve=curve, d="01", peer="04" + pa), pa[:2 * flen])
+    # RFC 7748 5.2 (single evaluations) and 6.1 / 6.2 (Diffie-Hellman)
+    for curve, d, u, want in [
+        ("X25519", "a546e36bf0527c9d3b16154b82465edd62144c0ac1fc5a18506a2244ba449ac4", "e6db6867583030db3594c1a424b15f7c726624ec26b3353b10a903a6d0ab1c4c",
+         "c3da55379de9c6908e94ea4df28d084f32eccf03491c71f754b4075577a28552"),
+        ("X25519", "4b66e9d4d1b4673c5ad22691957d6af5c11b6421e0ea01d42ca4169e7918ba0d", "e5210f12786811d3f4b7959d0538ae2c31dbe7106fc03c3efc4cd549c715a493",
+         "95cbde9476e8907d7aade45cb4b873f88b595a68799fa152e6f8f7647aac7957"),
+        ("X448", "3d262fddf9ec8e88495266fea19a34d28882acef045104d0d1aae121700a779c984c24f8cdd78fbff44943eba368f54b29259a4f1c600ad3",
+         "06fce640fa3487bfda5f6cf2d5263f8aad88334cbd07437f020f08f9814dc031ddbdc38c19c6da2583fa5429db94ada18aa7a7fb4ef8a086",
+         "ce3e4ff95a60dc6697da1db1d85e6afbdf79b50a2412d7546d5f239fe14fbaadeb445fc66a01b0779d98223961111e21766282f73dd96b6f"),
+        ("X448", "203d494428b8399352665ddca42f9de8fef600908e0d461cb021f8c538345dd77c3e4806e25f46d3315c44e0a5b4371282dd2c8d5be3095f",
+         "0fbcc2f993cd56d3305b0b7d9e55d4c1a8fb5dbb52f8e9a1e9b6201b165d015894e56c4d3570bee52fe205e28a78b91cdfbde71ce8d157db",
+         "884a02576239ff7a2f2f63b2db6a9ff37047ac13568e1e30fe63c4a7ad1b3ee3a5700df34321d62077e63633c575c1c954514e99da7c179d"),
+    ]:
+        eq("xdh %s RFC 7748 5.2 scalar %s.." % (curve, d[:8]), W.out(op="xdh", curve=curve, d=d, peer=u), want)
+    for curve, a, apub, b, bpub, k in [
+        ("X25519", "77076d0a7318a57d3c16c17251b26645df4c2f87ebc0992ab177fba51db92c2a", "8520f0098930a754748b7ddcb43ef75a0dbf3a0d26381af4eba4a98eaa9b4e6a",
+         "5dab087e624a8a4b79e17f8b83800ee66f3bbb292618b6fd1c2f8b27ff88e0eb", "de9edb7d7b7dc1b4d35b61c2ece435373f8343c85b78674dadfc7e146f882b4f",
+         "4a5d9d5ba4ce2de1728e3bf480350f25e07e21c947d19e3376f09b3c1e161742"),
+        ("X448", "9a8f4925d1519f5775cf46b04b5800d4ee9ee8bae8bc5565d498c28dd9c9baf574a9419744897391006382a6f127ab1d9ac2d8c0a598726b",
+         "9b08f7cc31b7e3e67d22d5aea121074a273bd2b83de09c63faa73d2c22c5d9bbc836647241d953d40c5b12da88120d53177f80e532c41fa0",
+         "1c306a7ac2a0e2e0990b294470cba339e6453772b075811d8fad0d1d6927c120bb5ee8972b0d3e21374c9c921b09d1b0366f10b65173992d",
+         "3eb7a829b0cd20f5bcfc0b599b6feccf6da4627107bdb0d4f345b43027d8b972fc3e34fb4232a13ca706dcb57aec3dae07bdc1c67bf33609",
+         "07fff4181ac6cc95ec1c16a94a0f74d12da232ce40a77552281d282bb60c0b56fd2464c335543936521c24403085d59a449a5037514a879d"),
+    ]:
+        rfc = "RFC 7748 6.1" if curve == "X25519" else "RFC 7748 6.2"
+        eq("xdh_pub %s %s Alice" % (curve, rfc), W.call(op="xdh_pub", curve=curve, d=a).get("pub"), apub)
+        eq("xdh_pub %s %s Bob" % (curve, rfc), W.call(op="xdh_pub", curve=curve, d=b).get("pub"), bpub)
+        eq("xdh %s %s Alice side" % (curve, rfc), W.out(op="xdh", curve=curve, d=a, peer=bpub), k)
+        eq("xdh %s %s Bob side" % (curve, rfc), W.out(op="xdh", curve=curve, d=b, peer=apub), k)
+    report("xdh unknown curve -> error", "error" in W.call(op="xdh", curve="X9000", d="00" * 32, peer="00" * 32))
+
+
 #@TESTS@
 
 
